@@ -29,14 +29,62 @@ SCENE_SPECS = [
     {'shape': (45, 70), 'src': [(90, 9, 24, 2.0, 1.4, 30), (75, 30, 17, 2.4, 1.5, 120), (65, 52, 27, 1.8, 1.2, 75),
                                 (80, 41, 28, 2.1, 1.6, 150)]},
 ]
+# "odd" segments: every scene also carries one instance of each of the small deterministic pixel patterns below.  They
+# are added to the image AND get their own label in the segmentation map (label = number of Gaussian sources + 1 + index),
+# so that the rare per-source branches of the code under test are taken in every scene, under every offset:
+#   diag5    5-pixel diagonal: brightest pixel interior to the 5x5 box but only 3 segment pixels in its 3x3 neighbourhood
+#            (quadratic-centroid fit impossible -> documented fall-back), very elongated, sparse bounding box
+#   pixel1   single-pixel segment (1x1 cutout: fit box does not fit, zero second moments, minimum Kron radius)
+#   row4     one-row (or, flipped, one-column) segment
+#   neg9     3x3 block of NEGATIVE pixels (negative total flux: undefined Kron radius / shape / radii)
+#   masked9  3x3 block whose every pixel is also set in the mask (completely masked source / aperture)
+#   ramp12   3x4 block rising monotonically to one corner (brightest pixel on the edge of the segment box)
+# pattern[j][i] is the value added at (x0 + i, y0 + j); the values are >= 6 noise sigma apart where the order matters.
+ODD_PATTERNS = {
+    'diag5': np.diag([15.0, 21.0, 33.0, 22.0, 16.0]),
+    'pixel1': np.array([[30.0]]),
+    'row4': np.array([[14.0, 24.0, 18.0, 11.0]]),
+    'neg9': -np.array([[6.0, 9.0, 7.0], [10.0, 16.0, 11.0], [5.0, 9.0, 8.0]]),
+    'masked9': np.array([[8.0, 12.0, 9.0], [13.0, 20.0, 12.0], [7.0, 11.0, 8.0]]),
+    'ramp12': np.array([[8.0, 11.0, 14.0, 17.0], [10.0, 14.0, 18.0, 23.0], [12.0, 17.0, 23.0, 30.0]]),
+}
+# per scene: (kind, x0, y0, flip) with (x0, y0) the lower-left pixel of the pattern and flip in {'', 'X', 'T', 'XT'}
+# ('X': mirrored in x, then 'T': transposed); all are >= 10 px from the frame edges and clear of the Gaussians
+_ODD = [
+    [('diag5', 48, 14, ''), ('pixel1', 50, 25, ''), ('row4', 12, 32, ''), ('neg9', 22, 31, ''),
+     ('masked9', 49, 32, ''), ('ramp12', 38, 10, '')],
+    [('diag5', 14, 32, 'X'), ('pixel1', 26, 36, ''), ('row4', 33, 31, 'T'), ('neg9', 52, 12, ''),
+     ('masked9', 58, 18, ''), ('ramp12', 38, 36, 'T')],
+    [('diag5', 12, 33, ''), ('pixel1', 22, 40, ''), ('row4', 14, 44, 'X'), ('neg9', 34, 57, ''),
+     ('masked9', 28, 11, ''), ('ramp12', 42, 60, 'X')],
+    [('diag5', 48, 11, 'X'), ('pixel1', 58, 17, ''), ('row4', 41, 12, 'T'), ('neg9', 17, 12, ''),
+     ('masked9', 20, 31, ''), ('ramp12', 27, 30, 'XT')],
+]
+for _s, _o in zip(SCENE_SPECS, _ODD):
+    _s['odd'] = _o
 # scenes 4-7 (thorough tier): the mirrored structures (tall <-> wide, near-edge source at the bottom instead of
 # the left) with different sizes and position angles
 for _s in list(SCENE_SPECS):
     SCENE_SPECS.append({'shape': (_s['shape'][1], _s['shape'][0]),
-                        'src': [(0.9 * a, y, x, 1.1 * sa, 0.9 * sb, 75 - pa) for (a, x, y, sa, sb, pa) in _s['src']]})
+                        'src': [(0.9 * a, y, x, 1.1 * sa, 0.9 * sb, 75 - pa) for (a, x, y, sa, sb, pa) in _s['src']],
+                        'odd': [(kind, y0, x0, f.replace('T', '') if 'T' in f else f + 'T')
+                                for (kind, x0, y0, f) in _s['odd']]})
 NOISE = 0.8
 SEG_LEVEL = 4.0
 RAMP = (0.013, 0.037, 2.1)          # background = a*x + b*y + c  (a != b: an x/y swap changes the value)
+# the error map carries a smooth large-scale "sensitivity" factor 1 + a*x/nx + b*(y/ny)**2 (a != b, not linear in y):
+# an error cutout taken at the wrong place (cutout-relative instead of image coordinates, x/y swapped) has visibly
+# different values everywhere, not only next to a source
+SENS = (0.9, 0.5)
+
+
+def odd_pattern(kind, flip):
+    p = ODD_PATTERNS[kind]
+    if 'X' in flip:
+        p = p[:, ::-1]
+    if 'T' in flip:
+        p = p.T
+    return np.array(p)
 
 
 def gauss2d(xx, yy, amp, x0, y0, sa, sb, th):
@@ -68,11 +116,30 @@ def make_scene(k, seed):
         models.append(gauss2d(xx, yy, *p))
     models = np.array(models)
     model = models.sum(axis=0)
-    data = model + rng.normal(0.0, NOISE, (ny, nx))
-    data2 = 0.7 * model + rng.normal(0.0, NOISE, (ny, nx))          # a second "band" for detection_cat
-    error = 0.5 + 0.3 * np.sqrt(np.abs(model)) + 0.05 * rng.uniform(0, 1, (ny, nx))
+    noise1, noise2 = rng.normal(0.0, NOISE, (ny, nx)), rng.normal(0.0, NOISE, (ny, nx))
+    unif = rng.uniform(0, 1, (ny, nx))
     seg = np.where(models.max(axis=0) > SEG_LEVEL, models.argmax(axis=0) + 1, 0).astype(np.int32)
     mask = np.zeros((ny, nx), bool)
+    # the odd segments (structure fixed by the spec; the seed only scales each pattern by a few percent)
+    oddimg = np.zeros((ny, nx))
+    odd = []
+    for i, (kind, ox, oy, flip) in enumerate(spec['odd']):
+        pat = odd_pattern(kind, flip) * rng.uniform(0.95, 1.05)
+        h, w = pat.shape
+        sl = (slice(oy, oy + h), slice(ox, ox + w))
+        if (seg[oy - 1:oy + h + 1, ox - 1:ox + w + 1] != 0).any() or min(ox, oy, nx - ox - w, ny - oy - h) < 10:
+            raise RuntimeError(f'scene {k}: odd segment {kind} at ({ox},{oy}) touches another segment or the border')
+        oddimg[sl] += pat
+        lab = len(src) + 1 + i
+        seg[sl][pat != 0] = lab
+        if kind == 'masked9':
+            mask[sl] = True
+        odd.append({'kind': kind, 'label': lab, 'xc': ox + (w - 1) / 2.0, 'yc': oy + (h - 1) / 2.0, 'w': w, 'h': h})
+    model = model + oddimg
+    data = model + noise1
+    data2 = 0.7 * model + noise2                                      # a second "band" for detection_cat
+    sens = 1.0 + SENS[0] * xx / nx + SENS[1] * (yy / ny) ** 2
+    error = (0.5 + 0.3 * np.sqrt(np.abs(model)) + 0.05 * unif) * sens
     x0, y0 = int(src[0][1]), int(src[0][2])
     mask[y0 + 2, x0 + 1] = True                      # inside source 1
     x1, y1 = int(src[1][1]), int(src[1][2])
@@ -85,7 +152,7 @@ def make_scene(k, seed):
     xs, ys = int(src[-1][1]), int(src[-1][2])
     data_bad[ys + 1, xs - 1] = np.nan
     data_bad[y0 - 1, x0 + 2] = np.inf
-    return {'k': k, 'shape': (ny, nx), 'src': src, 'data': data, 'data2': data2, 'data_bad': data_bad,
+    return {'k': k, 'shape': (ny, nx), 'src': src, 'odd': odd, 'data': data, 'data2': data2, 'data_bad': data_bad,
             'error': error, 'mask': mask, 'bkg': bkg, 'conv': conv, 'seg': seg}
 
 
